@@ -28,10 +28,12 @@ StrTypes == {"cstr", "lp8", "text", "atext", "ustr", "oneoftext"}
 
 \* boundary values of a numeric field, as (kind, amount): the harness materialises them in the field's width
 NumBoundaries == {"zero", "one", "max", "maxminus1", "signbit", "signbitminus1"}
-TextNumBoundaries == {"empty", "minus1", "huge", "letters", "plus", "space", "zero"}
+\* wrap8 / wrap16 / wrap32: the value the reply would carry anyway plus a multiple of 2^8 / 2^16 / 2^32 - equal to it after a
+\* truncating conversion, far from it before (a count "checked" against another field through a narrower type)
+TextNumBoundaries == {"empty", "minus1", "huge", "letters", "plus", "space", "zero", "wrap8", "wrap16", "wrap32"}
 LitByteValues == {0, 1, 2, 127, 128, 254, 255}
 \* an index that is part of a key's text (GameSpy 1 `player_7`, `frags_7`): the digits are replaced
-TxtIndexValues == {"0", "65536", "3000000", "4294967295", "18446744073709551615", "99999999999999999999", "-1"}
+TxtIndexValues == {"0", "65536", "3000000", "4294967295", "18446744073709551615", "99999999999999999999", "-1", "wrap8", "wrap16", "wrap32"}
 
 Descriptors ==
        {[op |-> "truncate_at"], [op |-> "truncate_inside"], [op |-> "empty"], [op |-> "bad_first_byte"],
